@@ -8,6 +8,7 @@ package main
 // updates its properties itself; a subscriber per property counts the change events.
 
 import (
+	"context"
 	"bytes"
 	"encoding/binary"
 	"fmt"
@@ -251,7 +252,7 @@ func prReset() string {
 				}
 			}(id, ch)
 		}
-		for _, m := range w.more {
+		for mi, m := range w.more {
 			mp, err := m.Proxy(name, 1)
 			if err != nil {
 				return "setup-error:" + err.Error()
@@ -259,6 +260,15 @@ func prReset() string {
 			got := map[uint32][]string{}
 			t.others = append(t.others, got)
 			for _, id := range ids {
+				if mi == len(w.more)-1 {
+					// the last session first asks with a context that is over: that subscription fails, and
+					// nothing of it may remain when the session subscribes for good
+					ctx, stop := context.WithCancel(context.Background())
+					stop()
+					if cancel, _, err := mp.WithContext(ctx).SubscribeID(id); err == nil {
+						cancel()
+					}
+				}
 				_, ch, err := mp.SubscribeID(id)
 				if err != nil {
 					return "setup-error:subscribe:" + err.Error()
